@@ -261,10 +261,19 @@ class BehavioralRTLIRToVVisitorL2( BehavioralRTLIRToVVisitorL1 ):
   # visit_LoopVar
   #-----------------------------------------------------------------------
 
+  def _loop_var_name( s, name ):
+    """The loop variable is declared inside the always block and would
+    shadow a port or wire of the component that has the same name."""
+    from pymtl3.dsl import Component
+    for obj in s.closure.values():
+      if isinstance( obj, Component ) and name in obj.__dict__:
+        return f"__loopvar__{name}"
+    return name
+
   def visit_LoopVar( s, node ):
     s.check_res( node, node.name )
     nbits = node.Type.get_dtype().get_length()
-    return f"{nbits}'({node.name})"
+    return f"{nbits}'({s._loop_var_name( node.name )})"
 
   #-----------------------------------------------------------------------
   # visit_TmpVar
@@ -284,4 +293,4 @@ class BehavioralRTLIRToVVisitorL2( BehavioralRTLIRToVVisitorL1 ):
 
   def visit_LoopVarDecl( s, node ):
     s.check_res( node, node.name )
-    return node.name
+    return s._loop_var_name( node.name )
